@@ -10,5 +10,6 @@ CONSTANTS
   Questions <- Q0
   AllowEnd = FALSE
   MaxRequery = 1
+  FixCommitState = TRUE
 INVARIANTS RequeryLosesNothing
 CHECK_DEADLOCK FALSE
